@@ -133,7 +133,7 @@ def _run(V, work, tier):
         sigs.append({"name": r["name"], "kind": r["kind"], "req": req, "opt": opt, "rest": rest, "key": key, "keys": keys})
     V.coverage["registry_size"] = len(sigs)
     sigtext = "".join(json.dumps({k: s[k] for k in ("name", "kind", "req", "opt", "rest", "key")}) + "\n" for s in sigs)
-    maxlen, maxk = (5, 8) if thorough else (4, 7)
+    maxlen, maxk = (6, 9) if thorough else (5, 8)
     res = run_tlc(work, "Bind", CFG % (maxlen, maxk), files={"sigs.ndjson": sigtext}, timeout=1200, workers=4)
     V.tlc(res, "Bind: agreement theorem over all shapes of length <= %d x k <= %d and over the registry" % (maxlen, maxk))
     if res.violated:
